@@ -30,3 +30,20 @@ impl Header {
     pub fn stamp(&self) -> (r: Stamp) ensures r == self.stamp_v { self.stamp_v }
 }
 pub struct ReadOnlyBaseVec<I, T> { pub stored_len: SharedLen, pub header: Header, pub phantom: core::marker::PhantomData<(I, T)> }
+
+// ---- compressed undo (U6): the parsed change record as ghost state, the page table's element count ----
+pub tracked struct UW<T> {
+    pub ghost disk: Seq<T>,          // the elements the page table accounts for (real_stored_len of them), as stored
+    pub ghost ts: usize,             // the parsed record: truncated_start, truncated values, previous push buffer, previous stamp
+    pub ghost tv: Seq<T>,
+    pub ghost pp: Seq<T>,
+    pub ghost stamp: Stamp,
+}
+#[verifier::external_body] pub struct ChangeCursor { _p: core::marker::PhantomData<u8> }
+impl ChangeCursor { #[verifier::external_body] pub fn new(bytes: &[u8]) -> ChangeCursor { unimplemented!() } }
+// `slice.get(..n)`
+pub fn slice_prefix<T>(s: &[T], n: usize) -> (r: Option<&[T]>) ensures r matches Some(p) ==> n <= s@.len() && p@ == s@.take(n as int), r is None <==> n > s@.len()
+{ if n <= s.len() { let p = vstd::slice::slice_subrange(s, 0, n); Some(p) } else { None } }
+// extend_from_slice / extend(Vec) with cloned == source (the Clone assumption of this unit)
+#[verifier::external_body] pub fn vec_extend_cloned<T: Clone>(v: &mut Vec<T>, s: &[T]) ensures final(v)@ == old(v)@ + s@ { v.extend_from_slice(s) }
+#[verifier::external_body] pub fn vec_append<T>(v: &mut Vec<T>, o: Vec<T>) ensures final(v)@ == old(v)@ + o@ { v.extend(o) }
